@@ -30,7 +30,7 @@ def script_tla(scripts):
 
 
 def consts(sc):
-    return "  Collectors <- MCUniv\n  Threads = {%s}\n  Script <- MCScript\n" % ", ".join(tla_str(t) for t in sc["threads"])
+    return "  Collectors <- MCUniv\n  CommonConst = FALSE\n  Threads = {%s}\n  Script <- MCScript\n" % ", ".join(tla_str(t) for t in sc["threads"])
 
 
 def harness_scen(sc):
@@ -84,7 +84,7 @@ def run_scenario(ctx, exe, sc, label, stats, model=True, nrandom=0):
         for h, _ in good:
             f.write(json.dumps(h, separators=(",", ":")) + "\n")
     mc = mc_module("MCLinReg" + label, "LinReg", {"MCUniv": univ_tla()})
-    rt = tlc(ctx, "LinReg", "CONSTANTS\n  Collectors <- MCUniv\nSPECIFICATION LSpec\nINVARIANT Linearizable\nCHECK_DEADLOCK FALSE\n", mc_text=mc, mc_name="MCLinReg" + label, workers=1,
+    rt = tlc(ctx, "LinReg", "CONSTANTS\n  Collectors <- MCUniv\n  CommonConst = FALSE\nSPECIFICATION LSpec\nINVARIANT Linearizable\nCHECK_DEADLOCK FALSE\n", mc_text=mc, mc_name="MCLinReg" + label, workers=1,
              env={"HISTS": p}, coverage=False, label="linreg" + label, count=False, timeout=1800)
     if not rt["ok"] or rt["distinct"] != len(good) + 1:
         raise ToolError("LinReg failed:\n" + rt["output"][-3000:])
@@ -123,7 +123,7 @@ def replay(rp):
     p = ctx.path("h.ndjson")
     open(p, "w").write(json.dumps(h) + "\n")
     mc = mc_module("MCLinRegR", "LinReg", {"MCUniv": univ_tla()})
-    rt = tlc(ctx, "LinReg", "CONSTANTS\n  Collectors <- MCUniv\nSPECIFICATION LSpec\nINVARIANT Linearizable\nCHECK_DEADLOCK FALSE\n", mc_text=mc, mc_name="MCLinRegR", workers=1, env={"HISTS": p}, coverage=False, count=False)
+    rt = tlc(ctx, "LinReg", "CONSTANTS\n  Collectors <- MCUniv\n  CommonConst = FALSE\nSPECIFICATION LSpec\nINVARIANT Linearizable\nCHECK_DEADLOCK FALSE\n", mc_text=mc, mc_name="MCLinRegR", workers=1, env={"HISTS": p}, coverage=False, count=False)
     bad = "REJECTED" in rt["output"]
     print("verdict:", "rejected by LinReg" if bad else "accepted by LinReg")
     shutil.rmtree(ctx.work, ignore_errors=True)
